@@ -217,16 +217,23 @@ func TestC19_StateMachine(t *testing.T) {
 					fail("close-not-terminal", "Connected still set after Close")
 				}
 				// no connection is left open, and none appears later (late dial results are closed)
-				dl := time.Now().Add(5 * time.Second)
-				for px.Live.Load() != 0 {
-					if time.Now().After(dl) {
-						fail("connection-left-open", "%d connections still open 5 s after Close", px.Live.Load())
+				// "left open" = still there when things have settled: a dial that was already under way
+				// (or that a late close callback of an auto-connect client starts) may surface briefly and
+				// must then be closed by the client; required: no connection for 300 ms in a row within 6 s
+				dl := time.Now().Add(6 * time.Second)
+				var zeroSince time.Time
+				for {
+					if n := px.Live.Load(); n != 0 {
+						zeroSince = time.Time{}
+						if time.Now().After(dl) {
+							fail("connection-left-open", "%d connections still open 6 s after Close", n)
+						}
+					} else if zeroSince.IsZero() {
+						zeroSince = time.Now()
+					} else if time.Since(zeroSince) > 300*time.Millisecond {
+						break
 					}
 					time.Sleep(time.Millisecond)
-				}
-				time.Sleep(120 * time.Millisecond)
-				if n := px.Live.Load(); n != 0 {
-					fail("connection-left-open", "%d connections (re)appeared after Close", n)
 				}
 				return
 			}
@@ -363,8 +370,41 @@ func TestC19_StateMachine(t *testing.T) {
 				step("dial latency %v", lat)
 				px.SetLatency(lat)
 			case 8:
-				if rapid.IntRange(0, 2).Draw(rt, "doclose") == 0 {
-					racing := rapid.Bool().Draw(rt, "closeracesdial")
+				if dc := rapid.IntRange(0, 2).Draw(rt, "doclose"); dc <= 1 {
+					racing := dc == 1 || rapid.Bool().Draw(rt, "closeracesdial")
+					if racing && !closed && up && (dc == 1 || rapid.Bool().Draw(rt, "closeinwindow")) {
+						// Close placed exactly between "dial returned" and "connection registered" of a
+						// connect routine (schedule point 16): the trap runs Close to completion inside
+						// the connect goroutine's window
+						closeRace = true
+						px.KillAll(netfx.CutRST)
+						for _, ch := range open {
+							ch.Free()
+						}
+						open = nil
+						var cst status.Status
+						disarm := setTrap(mpx.VerifPointClientConnStarted, func() {
+							done := make(chan struct{})
+							go func() { cst = cl.Close(); close(done) }()
+							select {
+							case <-done:
+							case <-time.After(2 * time.Second):
+							}
+						})
+						if ch, st := cl.Channel(ctx()); st.OK() {
+							ch.Free()
+						}
+						fired := disarm()
+						step("close inside the connect window (trap fired: %v) -> %v", fired, cst.Code)
+						if fired {
+							ev.Label(c19, "close-inside-connect-window", 1)
+							if !cst.OK() {
+								fail("close-failed", "Close returned %v", cst)
+							}
+							closed, dirty = true, true
+							continue
+						}
+					}
 					if racing && !closed {
 						// Close racing a dial: start a Channel call and close at once
 						closeRace = true
